@@ -8,10 +8,12 @@ import eqlgen as G
 from core import Case
 
 PID = "C02"
-LEAN_MODULES = ["KrroodVerif.Props.C02", "KrroodVerif.Props.C01"]
+LEAN_MODULES = ["KrroodVerif.Props.C02", "KrroodVerif.Props.C01", "KrroodVerif.Props.C01Typed"]
 THEOREMS = [
     "KrroodVerif.Eql.C02_multiplicity",
     "KrroodVerif.Eql.C02_the",
+    "KrroodVerif.Eql.C02_multiplicity_typed",
+    "KrroodVerif.Eql.C02_the_typed",
     "KrroodVerif.Eql.C02_cex_falsyBound",
     "KrroodVerif.Eql.C01_cover",
     "KrroodVerif.Eql.eval_total",
